@@ -36,29 +36,33 @@ func Abs(ctx *expr.Context, input system.Collection, args ...expr.Expression) (s
 		if err != nil {
 			return nil, err
 		}
-		// Absolution number
-		res := math.Abs(float64(number))
-		return system.Collection{system.Integer(res)}, nil
-	case system.Decimal:
-		// Input type conversion to float64
-		number, err := input.ToFloat64()
-		if err != nil {
-			return nil, err
+		// The absolute value of the smallest Integer does not fit an Integer:
+		// overflow results in empty.
+		if number == math.MinInt32 {
+			return system.Collection{}, nil
 		}
-		// Absolution number
-		res := math.Abs(number)
-		result := decimal.NewFromFloat(res)
+		if number < 0 {
+			number = -number
+		}
+		return system.Collection{system.Integer(number)}, nil
+	case system.Decimal:
+		if !input.IsSingleton() {
+			return nil, errors.New("invalid input, is not a singleton")
+		}
+		// Exact: no detour through float64
+		result := decimal.Decimal(input[0].(system.Decimal)).Abs()
 		return system.Collection{system.Decimal(result)}, nil
 	case system.Quantity:
-		quantity := strings.Split(input[0].(system.Quantity).String(), " ")
+		// A quantity without unit renders without the separating space
+		value, unit, _ := strings.Cut(input[0].(system.Quantity).String(), " ")
 		// Input type conversion
-		f, err := strconv.ParseFloat(quantity[0], 64)
+		f, err := strconv.ParseFloat(value, 64)
 		if err != nil {
 			return nil, err
 		}
 		// Absolution number
 		res := math.Abs(f)
-		return system.Collection{system.MustParseQuantity(fmt.Sprintf("%f", res), quantity[1])}, nil
+		return system.Collection{system.MustParseQuantity(fmt.Sprintf("%f", res), unit)}, nil
 	}
 	return nil, errors.New("input is not a number")
 }
